@@ -52,6 +52,8 @@ func checkC06(run *Run, res *Result) {
 	}
 	badEmitted := 0
 	stopping := map[int]bool{}
+	badBy := map[int]int{}
+	gone := map[int]bool{}
 	// the tuples sessions were opened with (loaded from the store / auto-reset) are legitimate stored values;
 	// a save may run before the stream request that reveals the loaded tuple has been answered, so collect them first
 	for i := range run.Evs {
@@ -77,9 +79,12 @@ func checkC06(run *Run, res *Result) {
 			if e.S == "AfterStreamStart" {
 				stopping[e.M] = false
 			}
+		case journal.KCrash:
+			gone[e.M] = true
 		case journal.KCall:
 			if e.S == "Close" {
 				stopping[e.M] = true
+				gone[e.M] = true // an item still queued behind a slow consumer when the shutdown begins is never looked at
 			}
 		case journal.KReq:
 			// the position a session loaded is "handed out" from the moment its stream request leaves the client:
@@ -133,6 +138,7 @@ func checkC06(run *Run, res *Result) {
 						res.probe("out-of-snapshot-item-while-stopping") // the observers are closed already: the item is dropped, rightly
 					} else {
 						badEmitted++
+						badBy[e.M]++
 					}
 					continue
 				}
@@ -224,7 +230,13 @@ func checkC06(run *Run, res *Result) {
 	// R6: an out-of-snapshot server event stops the client
 	if badEmitted > 0 {
 		res.probe("out-of-snapshot-item-emitted")
-		if !strings.Contains(res.FailStop, "seqNo not in snapshot") && run.Ended {
+		stayed := 0
+		for m, n := range badBy {
+			if n > 0 && !gone[m] {
+				stayed++
+			}
+		}
+		if !strings.Contains(res.FailStop, "seqNo not in snapshot") && run.Ended && stayed > 0 {
 			res.violate("C06", "R6-out-of-snapshot-event-did-not-stop-client", len(run.Evs), "plain",
 				"the server sent %d event(s) outside their announced snapshot and the client kept running through the quiesce phase (process death: %q)", badEmitted, res.FailStop)
 		}
